@@ -6,10 +6,11 @@ steps on one repository, ghost fields `t0` / `relied` / `written`, plan time `pn
 `Rustic.Repo` for backup ∥ backup.  Unbounded in the number of packs, snapshots, actors and steps.
 
 Main theorem (`overlap_no_loss`): in EVERY state reachable by ANY interleaving of the single steps of any number of
-backups and prunes (clock ticks, index loads, pack writes, snapshot saves, plans, index rewrites, pack removals),
+backups, prunes and forgets (clock ticks, index loads, pack writes, snapshot saves and removals, plans, index rewrites, pack
+removals),
 nothing a visible snapshot needs is lost and nothing a running backup relies on is lost while that backup is within
 the hypothesis — by induction over step lists with the invariant `Inv` (Lemmas/Interleave.lean: I1 snapshots, I2 relied
-keys, I3 plans delete only what was marked keep-delete before, I4 own packs), every one of the eight step kinds
+keys, I3 plans delete only what was marked keep-delete before, I4 own packs), every one of the nine step kinds
 preserving it (`step_preserves_Inv`).  `next_prune_recovers`: from every such state the follow-up prune makes every
 snapshot readable through a fresh index load.  The duration hypothesis is a guard of the model (`backupFinish` is only
 enabled while `now + span < t0 + keep_delete`) and is used in exactly one lemma (`doomed_listed_absurd`, the timing
@@ -75,7 +76,7 @@ theorem visible_kept (s : St) (since : Int) (k : Key) (h : visible s k = true) :
   exact ⟨p, hp, ⟨hs, hk⟩, by rw [hst]⟩
 
 /-- **Every step of every actor preserves the invariant** — tick, backupStart, backupWrite, backupFinish, pruneStart,
-pruneRewrite, pruneRemove, pruneEnd (DESIGN §6 C10 `step_preserves_Inv`). -/
+pruneRewrite, pruneRemove, pruneEnd, forget (DESIGN §6 C10 `step_preserves_Inv`). -/
 theorem step_preserves_Inv (s s' : St) (a : Step) (h : Inv s) (hs : step s a = some s') : Inv s' := inv_step a h hs
 
 /-- **Main theorem**: for every interleaving (`steps` is any list of steps of any number of backups and prunes that the
@@ -136,6 +137,16 @@ theorem writes_are_monotone (r : Repo) (o : Op) (hw : o.isWrite = true) (pid : N
   · exact ⟨id, id⟩
 
 /-! ### witnesses -/
+
+/-- non-vacuity with `forget` (the `bfp` family of the harness): a backup loads its index and relies on `k1`, the only
+snapshot using pack 1 is forgotten, a prune marks pack 1, a second prune 10 min later keeps it (marked at 100, keep-delete
+23 h), the backup finishes within the hypothesis: nothing lost, and the follow-up prune makes the snapshot readable. -/
+theorem forget_two_prunes_keeps :
+    ((run { w0 (some 3600) with snaps := [[k1]] } [.tick 100, .backupStart [k1], .forget 0, .pruneStart [] [1], .pruneRewrite 0,
+        .pruneEnd 0, .tick 600, .pruneStart [] [], .pruneRewrite 0, .pruneEnd 0, .tick 60, .backupFinish 0 [k1]]).map
+      (fun s => (noLoss s, s.packs.map (fun p => (p.stored, p.status)), allVisible (followupPrune s)))) =
+      some (true, [(true, .marked 100)], true) := by
+  decide +kernel
 
 /-- non-vacuity of the hypotheses of the main theorem: the witness start state satisfies the invariant. -/
 example : Inv (w0 (some 3600)) := inv_quiescent _ rfl (by simp [w0]) rfl rfl (by simp [w0])
